@@ -3,7 +3,11 @@
    nat, positive, N, Z stay the extracted inductive types.  No Extract Constant/Inductive
    directive of our own. Run from the directory that should receive model.ml/model.mli. *)
 From Coq Require Extraction ExtrOcamlBasic.
-From Parmcb Require Import GF2Model.
+From Coq Require Import ZArith.
+From Parmcb Require Import GF2Model FpModel.
 Extraction Language OCaml.
 Set Extraction Optimize.
-Extraction "model.ml" run_dump.
+Extraction "model.ml"
+  Z.add Z.mul Z.opp Z.div_eucl Z.of_nat Z.to_nat Z.compare Z.eqb
+  run_dump
+  ext_gcd mult_inverse is_prime frun_dump.
